@@ -6,6 +6,13 @@ mod util;
 mod k1;
 mod k2;
 mod sim;
+mod sched;
+mod life;
+mod registry;
+mod responder;
+mod browser;
+mod hostres;
+mod safety;
 
 use std::io::{BufRead, Write};
 use std::sync::mpsc;
@@ -16,7 +23,12 @@ fn run_case(line: &str) -> String {
     let r = std::panic::catch_unwind(|| match toks[0] {
         t if t.starts_with("txt_") => k2::run_txt(&toks),
         "dec" | "enc" | "encdec" => k1::run(&toks),
-        _ => "BADCASE".to_string(),
+        _ => {
+            // group-owned case kinds: the first module that knows the kind answers
+            let groups: [fn(&[&str]) -> Option<String>; 7] =
+                [sched::run, life::run, registry::run, responder::run, browser::run, hostres::run, safety::run];
+            groups.iter().find_map(|f| f(&toks)).unwrap_or_else(|| "BADCASE".to_string())
+        }
     });
     match r {
         Ok(s) => s,
